@@ -291,15 +291,33 @@ func guardedAccesses(c *Ctx, r *R, prefix, pkgSuffix, typ, field, mu string) {
 						pi = k
 					}
 				}
-				sites := callCommonsOf(c, fn)
+				sites := callSitesOf(c, fn)
 				allFresh := pi >= 0 && len(sites) > 0
-				for _, cc := range sites {
-					if pi >= len(cc.Args) {
+				for _, site := range sites {
+					if pi >= len(site.Call.Args) {
 						allFresh = false
 						break
 					}
-					if _, isAlloc := resolveVal(cc.Args[pi]).(*ssa.Alloc); !isAlloc {
+					// the object was allocated in the very block that makes the call, and has not been handed to anything
+					// before it (no closure captured it, it was not stored or passed on)
+					al, isAlloc := site.Call.Args[pi].(*ssa.Alloc)
+					if !isAlloc || al.Block() != site.Block() {
 						allFresh = false
+						break
+					}
+					for _, ref := range refsOf(al) {
+						if ref == ssa.Instruction(site) || ref.Block() != site.Block() || idxIn(ref) > idxIn(site) {
+							continue
+						}
+						switch y := ref.(type) {
+						case *ssa.FieldAddr, *ssa.DebugRef:
+						case *ssa.Store:
+							if y.Val == ssa.Value(al) {
+								allFresh = false
+							}
+						default:
+							allFresh = false
+						}
 					}
 				}
 				if allFresh {
